@@ -501,12 +501,10 @@ def access_half(ctx, gen_ok):
     return mism, n
 
 
-def replay(ctx):
+def replay(ctx, rp):
     '''./check C19 --replay F : re-execute the recorded request on the real code
     (static: the named tree and request string; access: the whole endpoint x
     verb x hook table, it is cheap) and evaluate the oracle.'''
-    import json
-    rp = json.load(open(ctx.replay))
     if 'tree' in rp and 'request' in rp:
         ctx.coq_build(['Model/Static.vo'])
         mism, n = static_half(ctx, only=(rp['tree'], rp['request']))
@@ -518,17 +516,15 @@ def replay(ctx):
     elif 'uri' in rp or 'path' in rp:
         access_half(ctx, False)
     else:
-        return False
+        # the file names a proof / correspondence obligation: the full check
+        return run(ctx)
     ctx.level = 'other'   # a replay is not a proof run; the next normal run rewrites the evidence
     ctx.note('replay', ctx.replay)
     ctx.count(evaluations=1, nontrivial_keys=[('replay', 1), ('replay', 2)])
-    return True
 
 
 # ---------------------------------------------------------------------------
 def run(ctx):
-    if ctx.replay and replay(ctx):
-        return
     ctx.cov['rule'] = (
         'static: (directory tree with symlinks in/out, roots incl. nested/'
         'missing/symlinked/identical) x request string (directed list + every '
